@@ -1716,6 +1716,10 @@ class TreeGen:
             # any edit, so nothing of the property could be judged on such a tree
             self.excl['method call with a keyword argument (to_string(fill:/format:), slice(step:)): the rewriter refuses the whole tree cleanly, no edit to judge'] += 1
             return self.lit(e)
+        if k == 'meth' and e[2] == 'contains' and any(isinstance(self.ref(a), list) for kw, a in e[3] if kw is None):
+            # same analysis: a list given as the argument is flattened into several arguments ('"array.contains" takes exactly 1 arguments, but got 3')
+            self.excl['array.contains() with a list as its argument: the rewriter refuses the whole tree cleanly, no edit to judge'] += 1
+            return self.lit(e)
         slots = child_slots(e)
         for idx, (child, minp, cls) in enumerate(slots):
             if cls == 'none' or R.prec_of(unparen(child)) >= minp:
